@@ -87,8 +87,8 @@ def zoom_rbs(array, newSize, order=3):
                 numpy.arange(array.shape[0]), numpy.arange(array.shape[1]), 
                 array.imag, kx=order, ky=order)
                          
-        return (realInterpObj(coordsY,coordsX)
-                            + 1j*imagInterpObj(coordsY,coordsX))
+        return (realInterpObj(coordsX,coordsY)
+                            + 1j*imagInterpObj(coordsX,coordsY))
             
     else:
 
@@ -96,7 +96,7 @@ def zoom_rbs(array, newSize, order=3):
                 numpy.arange(array.shape[1]), array, kx=order, ky=order)
 
 
-        return interpObj(coordsY,coordsX)
+        return interpObj(coordsX,coordsY)
         
         
 def binImgs(data, n):
